@@ -56,12 +56,23 @@ class Runner:
         self.dev = cfg.devs[dev_index - 1]
         self.device = cfg.real_devices[dev_index - 1]
         self.seq = Sequence(D.make_register(self.dev["nq"]), self.device)
+        self.V = None
+        if getattr(cfg, "variables", None):
+            self.V = {}
+            for (name, dtype, size) in cfg.variables:
+                self.V[name] = (self.seq.declare_variable(name, dtype=dtype) if size is None
+                                else self.seq.declare_variable(name, dtype=dtype, size=size))
 
     def call(self, c):
         """Returns (out, ret)."""
         seq, cfg = self.seq, self.cfg
         u = cfg.phase_unit
         op = c["op"]
+        pv = None
+        if c.get("par"):
+            # the variable-dependent argument of a parametrized call, built from this
+            # sequence's own Variable objects
+            pv = cfg.par_real[c["pk"]](self.V)
         try:
             with warnings.catch_warnings():
                 warnings.simplefilter("ignore")
@@ -75,18 +86,21 @@ class Runner:
                                         initial_target=it)
                 elif op == "target":
                     ids = ids_of(c["tg"])
-                    seq.target(ids[0] if len(ids) == 1 else ids, name_of(c["nm"]))
+                    if pv is None:
+                        seq.target(ids[0] if len(ids) == 1 else ids, name_of(c["nm"]))
+                    else:
+                        seq.target_index(pv, name_of(c["nm"]))
                 elif op == "delay":
-                    seq.delay(c["d"], name_of(c["nm"]), at_rest=c["rest"])
+                    seq.delay(c["d"] if pv is None else pv, name_of(c["nm"]), at_rest=c["rest"])
                 elif op == "add":
-                    seq.add(cfg.real_pulses[c["p"] - 1], name_of(c["nm"]), c["proto"])
+                    seq.add(cfg.real_pulses[c["p"] - 1] if pv is None else pv, name_of(c["nm"]), c["proto"])
                 elif op == "est":
                     ret = int(seq.estimate_added_delay(cfg.real_pulses[c["p"] - 1],
                                                        name_of(c["nm"]), c["proto"]))
                 elif op == "align":
                     seq.align(*[name_of(n) for n in c["nms"]], at_rest=c["rest"])
                 elif op == "pshift":
-                    seq.phase_shift(c["phi"] * u, *ids_of(c["tg"]), basis=c["basis"])
+                    seq.phase_shift(c["phi"] * u if pv is None else pv, *ids_of(c["tg"]), basis=c["basis"])
                 elif op == "measure":
                     seq.measure(c["basis"])
                 elif op == "eom_on" or op == "eom_mod":
@@ -97,9 +111,11 @@ class Runner:
                 elif op == "eom_off":
                     seq.disable_eom_mode(name_of(c["nm"]), correct_phase_drift=c["cpd"])
                 elif op == "eom_add":
-                    seq.add_eom_pulse(name_of(c["nm"]), c["dur"], c["ph"] * u,
+                    seq.add_eom_pulse(name_of(c["nm"]), c["dur"] if pv is None else pv, c["ph"] * u,
                                       post_phase_shift=c["pps"] * u, protocol=c["proto"],
                                       correct_phase_drift=c["cpd"])
+                elif op == "getdur":
+                    ret = int(seq.get_duration(name_of(c["nm"])))
                 elif op == "detmap":
                     reg = seq.register
                     dmap = reg.define_detuning_map({D.qid(k + 1): w / 2 for k, w in enumerate(c["w2"])})
